@@ -36,7 +36,7 @@ RULE = (
     "release sequence interleaves them (some task is resumed after another task ran in between); distinct = distinct case."
 )
 ASSUMPTIONS = [
-    "known finding F70 is excluded by construction: a case whose library macro mm contains an autoescape block around an await, and in which at least two tasks call mm through the cached default module (import without context), is counted as excluded and not run; everything else, including autoescape blocks around awaits in main templates, includes, local macros, call blocks and modules imported with context, is judged",
+    "known finding F70 is excluded by construction: a case whose library macro mm contains an autoescape block around an await, and in which a task calls mm through the cached default module (import without context) while at least one other task uses a macro of that module, is counted as excluded and not run; everything else, including autoescape blocks around awaits in main templates, includes, local macros, call blocks and modules imported with context, is judged",
     "differential oracle: expected output is computed by the same implementation, rendered alone on a fresh environment after the jinja2 package's module-level and class-level containers (set/dict/list) were put back to their import-time contents (approximation of a fresh process: state kept in other objects is not reset); the concurrent run starts from the same state, so a case never depends on earlier cases; a defect common to both sides is invisible",
     "tasks interleave only at harness gates (the templates' only suspending awaits), i.e. at asyncio task granularity",
     "no mutable data object is shared between tasks by the harness; library templates keep no module-level cycler/namespace that importers use (documented cache sharing of imported modules is not interference)",
@@ -161,7 +161,7 @@ def _env_class():
         def compile(self, source, name=None, filename=None, raw=False, defer_init=False):
             if raw or not isinstance(source, str):
                 return super().compile(source, name, filename, raw, defer_init)
-            key = (source, name, filename)
+            key = (source, name, filename, bool(self.autoescape))  # every compile-relevant option the cases vary
             code = _CODE.get(key)
             if code is None:
                 if len(_CODE) > 256:
@@ -399,40 +399,46 @@ def _auto_around_await(nodes):
     return False
 
 
-def _calls_cached_mm(case, name, cached, seen):
+def _calls_cached_mm(case, name, cached, seen, modes=(0, 3)):
     """does template ``name`` (statically) call the library macro mm imported WITHOUT context from the cached default
     module?  ``cached`` is False while we are in a main template / its parents that carry per-template globals (their
-    imports build a private module); inside an included template the default module is always the cached one."""
+    imports build a private module); inside an included template and inside a block body the default module is always the cached one."""
     if name in seen or name not in case["t"]:
         return False
     seen.add(name)
     td = case["t"][name]
 
-    def walk(nodes):
+    def walk(nodes, cached):
         for n in nodes:
-            if n[0] == "imp" and n[1] in (0, 3) and cached:
+            if n[0] == "imp" and n[1] in modes and cached:
                 return True
-            if n[0] == "inc" and _calls_cached_mm(case, n[1], True, seen):
+            if n[0] == "inc" and _calls_cached_mm(case, n[1], True, seen, modes):
                 return True
+            # a block body runs on a derived context, which has no globals of its own: imports there use the cached module
+            inner = True if n[0] == "blk" else cached
             for part in n[1:]:
-                if isinstance(part, list) and part and isinstance(part[0], list) and walk(part):
+                if isinstance(part, list) and part and isinstance(part[0], list) and walk(part, inner):
                     return True
         return False
 
-    if walk(td.get("body") or []):
+    if walk(td.get("body") or [], cached):
         return True
-    return bool(td.get("ext")) and _calls_cached_mm(case, td["ext"], cached, seen)
+    return bool(td.get("ext")) and _calls_cached_mm(case, td["ext"], cached, seen, modes)
 
 
 def in_known_class(case):
     """F70: an autoescape block around an await inside the macro of the library imported without context, called by at
-    least two tasks through the cached module (whose single eval context all those calls share)."""
+    least one task through the cached module while another task runs a macro of that module (all those calls share the
+    module's single eval context)."""
     lib = case["t"].get("m0")
     if not lib or not _auto_around_await(lib.get("mac") or []):
         return False
     tg = case.get("tg") or {}
-    callers = sum(1 for t in case["tasks"] if _calls_cached_mm(case, t["main"], not tg.get(t["main"]), set()))
-    return callers >= 2
+    # one task inside mm's block is enough to disturb any other task that is running a macro (mm or wrap) of the same
+    # cached module at that time
+    in_mm = sum(1 for t in case["tasks"] if _calls_cached_mm(case, t["main"], not tg.get(t["main"]), set()))
+    in_any = sum(1 for t in case["tasks"] if _calls_cached_mm(case, t["main"], not tg.get(t["main"]), set(), (0, 1, 3)))
+    return in_mm >= 1 and in_any >= 2
 
 
 def check_known(entry):
